@@ -74,6 +74,27 @@ func (p *Path) f2iCut(x *Term, bits uint8, signed bool) *Term {
 	if p.enc != EncInt {
 		return nil
 	}
+	// the conversion is a function of its operand: the same float term converts to the same integer
+	type key struct {
+		t      *Term
+		bits   uint8
+		signed bool
+	}
+	if p.f2iMemo == nil {
+		p.f2iMemo = map[interface{}]*Term{}
+	}
+	k := key{x, bits, signed}
+	if r, ok := p.f2iMemo[k]; ok {
+		return r
+	}
+	r := p.f2iCutNew(x, bits, signed)
+	if r != nil {
+		p.f2iMemo[k] = r
+	}
+	return r
+}
+
+func (p *Path) f2iCutNew(x *Term, bits uint8, signed bool) *Term {
 	if r := p.f2iQuot(x, bits, signed); r != nil {
 		return r
 	}
@@ -88,6 +109,26 @@ func (p *Path) f2iCut(x *Term, bits uint8, signed bool) *Term {
 		r := st.Var(fmt.Sprintf("fpcut_%d", p.nondetSeq["fpcut"]), KInt, bits, signed)
 		rw := st.Conv(r, 0, false)
 		p.assertPC(st.Eq(rw, p.exactFl(one)))
+		p.fpCuts++
+		return r
+	}
+	// float64(x) * 2^-k is exact for x < 2^53: the conversion is floor(x / 2^k)
+	if xi, kpow, ok := timesPow2(x); ok && !signed {
+		p.nondetSeq["fpcut"]++
+		r := st.Var(fmt.Sprintf("fpcut_%d", p.nondetSeq["fpcut"]), KInt, bits, signed)
+		xw, rw := st.Conv(xi, 0, false), st.Conv(r, 0, false)
+		two53 := st.Wide(new(big.Int).Lsh(big.NewInt(1), 53))
+		d := new(big.Int).Lsh(big.NewInt(1), uint(kpow))
+		mulc := func(t *Term, c *big.Int) *Term { return st.mk(&Term{op: OMul, kind: KWide, a: []*Term{t, st.Wide(c)}}) }
+		imp := func(h, c *Term) *Term { return st.Or(st.Not(h), c) }
+		// r*d <= x < (r+1)*d
+		exact := st.And(st.Le(mulc(rw, d), xw), st.Lt(xw, mulc(st.Bin(OAdd, rw, st.Wide(big.NewInt(1))), d)))
+		p.assertPC(imp(st.Lt(xw, two53), exact))
+		// above 2^53 fall back to the enclosure
+		e2, _ := encloseFloat(x)
+		up := st.Le(mulc(rw, e2.hi.Denom()), mulc(xw, e2.hi.Num()))
+		low := st.Lt(mulc(xw, e2.lo.Num()), mulc(st.Bin(OAdd, rw, st.Wide(big.NewInt(1))), e2.lo.Denom()))
+		p.assertPC(imp(st.Not(st.Lt(xw, two53)), st.And(up, low)))
 		p.fpCuts++
 		return r
 	}
@@ -269,4 +310,24 @@ func (p *Path) exactFl(L *Term) *Term {
 	res = ite(st.Lt(lw, st.Wide(new(big.Int).Lsh(big.NewInt(1), 53))), lw, res)
 	p.flMemo[lw] = res
 	return res
+}
+
+// timesPow2 matches float64(x) * c (either order) with x an unsigned integer term and
+// c = 2^-k, 1 <= k <= 32.
+func timesPow2(t *Term) (*Term, int, bool) {
+	if t.op != OFMul {
+		return nil, 0, false
+	}
+	for i := 0; i < 2; i++ {
+		a, c := t.a[i], t.a[1-i]
+		if a.op == OI2F && a.a[0].kind == KInt && !a.a[0].signed && c.isConst() {
+			f := c.f64Val()
+			for k := 1; k <= 32; k++ {
+				if f == math.Ldexp(1, -k) {
+					return a.a[0], k, true
+				}
+			}
+		}
+	}
+	return nil, 0, false
 }
